@@ -355,6 +355,17 @@ def jobs(tier):
         J.append({'name': name, 'fn': fn, 'params': params, **({'timeout': timeout} if timeout else {})})
     q = tier == 'quick'
     tmo = 900 if q else 3000
+    # grammar operations: purity of every single-phase wrapper and of cfg_to_chomsky (jobs of C08: argument rules, shared
+    # Alternative objects and variable set unchanged), and history independence of the membership test and the enumerator
+    # (jobs of C07 / C02: same rules, other start variable, then the first grammar again)
+    from .C08 import job_phase, PHASES
+    from .C07 import job_general
+    from .C02 import job_cfg
+    for ph in PHASES:
+        add('grammar_purity_%s' % ph[4:], job_phase, family='long', what=ph, maxlen=2, nsym=5, timeout=tmo)
+    add('grammar_purity_to_chomsky', job_phase, family='three_vars', what='cfg_to_chomsky', maxlen=2, nsym=5, second_start=True, timeout=tmo)
+    add('grammar_history_accepts', job_general, family='eps_unit', maxlen=2, nsym=5, history=True, timeout=tmo)
+    add('grammar_history_enumerate', job_cfg, kind='general', family='three_vars', nsym=5, N=2, history=True, timeout=tmo)
     add('two_runs_minimize_n3_k1', job_two_runs_dfa, which='dfa_minimize', n=3, k=1, timeout=tmo)
     add('two_runs_minimize_n2_k2', job_two_runs_dfa, which='dfa_minimize', n=2, k=2, timeout=tmo)
     add('two_runs_quotient_n2_k2', job_two_runs_dfa, which='dfa_quotient', n=2, k=2, timeout=tmo)
@@ -593,4 +604,7 @@ def _replay_nfa_history(rp):
     return len(set(langs)) > 1, {'languages (words <= 4) of successive identical calls': [list(l)[:6] for l in langs]}
 
 
-REPLAY = {'nfa_history': _replay_nfa_history, 'purity_dfa': _replay_purity_dfa, 'purity_nfa': _replay_purity_nfa, 'two_runs': _replay_two_runs, 'two_runs_nfa': _replay_two_runs_nfa, 'logging': _replay_logging, 'printers': _replay_printers, 'pda_twice': _replay_pda_twice}
+from .C08 import REPLAY as _R08
+from .C07 import REPLAY as _R07
+from .C02 import REPLAY as _R02
+REPLAY = {'phase': _R08['phase'], 'phase_history': _R08['phase_history'], 'cyk': _R07['cyk'], 'cyk_history': _R07['cyk_history'], 'cfg': _R02['cfg'], 'cfg_history': _R02['cfg_history'], 'nfa_history': _replay_nfa_history, 'purity_dfa': _replay_purity_dfa, 'purity_nfa': _replay_purity_nfa, 'two_runs': _replay_two_runs, 'two_runs_nfa': _replay_two_runs_nfa, 'logging': _replay_logging, 'printers': _replay_printers, 'pda_twice': _replay_pda_twice}
